@@ -40,6 +40,11 @@ def sym_body(cfg, want_vjp=True, want_jvp=False, complex_g=None):
 
     def body():
         dual = cfg.make_args(eps={k: {1: "d"}})
+        # pinned primal values (cfg.pin_args: (argument position, entry index or None, value)): the claim is decided AT that
+        # value of the symbol - every value-dependent branch of the real code is then explored under p == value
+        for (ai, idx, val) in getattr(cfg, "pin_args", ()):
+            e = dual[ai][idx] if idx is not None else dual[ai]
+            CTX.add_assume(toz(e.c[0]) == toz(Fr(val)), "pinned value")
         try:
             y = getattr(cfg, "oracle", cfg.call)(onp, *dual)
         except (Unsupported, Infeasible, PathLimit):
